@@ -1,4 +1,6 @@
 import UncModel.Gen.ExitSites
+import UncModel.Gen.TokLoops
+import UncModel.TokCtx
 /-!
 # C06 — clean termination: the part an executable model can carry
 
@@ -42,5 +44,99 @@ theorem C06_nl_loop_bounded (changed : Nat → Bool) : nlLoopIters changed 10 3 
 example : nlLoopIters (fun _ => true) 10 3 0 = 4 := by decide
 example : nlLoopIters (fun _ => false) 10 3 0 = 1 := by decide
 example : Gen.exitSites.length > 100 := by decide +kernel
+
+/-! ### the scanning loops of the tokenizer stop at the end of the data -/
+
+theorem get_remaining (c : TokCtx) (h : c.more = true) : c.get.remaining + 1 = c.remaining := by
+  simp only [TokCtx.more, decide_eq_true_eq] at h
+  simp [TokCtx.get, TokCtx.more, h, TokCtx.remaining]; omega
+
+theorem get_at_end (c : TokCtx) (h : c.more = false) : c.get = c ∧ c.peek = 0 := by
+  simp [TokCtx.get, TokCtx.peek, h]
+
+/-- a loop `while (p(ctx.peek())) ctx.get();` whose predicate is false for 0 ends after at most `remaining + 1` tests,
+    on every input -/
+theorem C06_scan_terminates (p : Nat → Bool) (hp : p 0 = false) (c : TokCtx) :
+    ∃ c', scanWhile p (c.remaining + 1) c = some c' := by
+  generalize hn : c.remaining = n
+  induction n generalizing c with
+  | zero =>
+    have hm : c.more = false := by
+      simp [TokCtx.more, TokCtx.remaining] at *; omega
+    refine ⟨c, ?_⟩
+    simp [scanWhile, (get_at_end c hm).2, hp]
+  | succ n ih =>
+    have hm : c.more = true := by
+      simp [TokCtx.more, TokCtx.remaining] at *; omega
+    simp only [scanWhile]
+    by_cases hc : p c.peek = true
+    · simp only [hc, if_true]
+      have := get_remaining c hm
+      exact ih c.get (by omega)
+    · exact ⟨c, by simp [hc]⟩
+
+/-- the same with `ctx.more() &&` in the condition, for every predicate -/
+theorem C06_scan_more_terminates (p : Nat → Bool) (c : TokCtx) :
+    ∃ c', scanWhileMore p (c.remaining + 1) c = some c' := by
+  generalize hn : c.remaining = n
+  induction n generalizing c with
+  | zero =>
+    have hm : c.more = false := by
+      simp [TokCtx.more, TokCtx.remaining] at *; omega
+    exact ⟨c, by simp [scanWhileMore, hm]⟩
+  | succ n ih =>
+    have hm : c.more = true := by
+      simp [TokCtx.more, TokCtx.remaining] at *; omega
+    simp only [scanWhileMore]
+    by_cases hc : (c.more && p c.peek) = true
+    · simp only [hc, if_true]
+      have := get_remaining c hm
+      exact ih c.get (by omega)
+    · exact ⟨c, by simp [hc]⟩
+
+/-- a predicate that holds for 0 never lets the loop leave the end of the data: no amount of fuel suffices -/
+theorem C06_scan_diverges (p : Nat → Bool) (hp : p 0 = true) (c : TokCtx) (hm : c.more = false) (f : Nat) :
+    scanWhile p f c = none := by
+  induction f with
+  | zero => rfl
+  | succ f ih =>
+    have h := get_at_end c hm
+    simp [scanWhile, h.2, hp, h.1, ih]
+
+/-- loops of tokenize.cpp that are neither guarded by `more()`, nor a counter, nor a `peek` test that is false for 0:
+    (function, ordinal, condition) with the reason they stop.  `parse_pawn_pattern` does NOT stop (known finding of C06:
+    a Pawn `#define X` at the end of the file hangs) and is listed so that nothing else can hide behind it. -/
+def tokLoopExceptions : List (String × Nat × String) := [
+  ("parse_comment", 0, "true"),                       -- scans for the end of a `//` comment; leaves by `break`/`return` when `!ctx.more()`
+  ("parse_number", 9, "1"),                           -- suffix scan: leaves as soon as the upper-cased character is not a suffix letter (0 is not)
+  ("parse_word", 1, "true"),                          -- Objective-C `@` word scan; leaves when `!ctx.more()`
+  ("parse_attribute_specifier_sequence", 0, "ch1"),   -- ch1 = ctx.peek(offset), 0 past the end
+  ("parse_attribute_specifier_sequence", 1, "ch2 == '' || ch2 == '' || ch2 == '' || ch2 == ''"),   -- blank skip over peek(offset), 0 past the end
+  ("parse_off_newlines", 0, "parse_newline(ctx)"),    -- parse_newline consumes at least one character when it returns true
+  ("find_disable_processing_comment_marker", 0, "idx > 0 && text[idx - 1] != ''"),                 -- index walks down a string
+  ("find_enable_processing_comment_marker", 0, "idx < int(text.size()) && text[idx] != ''"),       -- index walks up to the size
+  ("tokenize", 1, "(chunk.GetStr().size() > 0) && ( (chunk.GetStr()[chunk.GetStr().size() - 1] == '') || (chunk.GetStr()[chunk.GetStr().size() - 1] == ''))"),
+                                                      -- strips trailing blanks of a chunk text: the text gets shorter
+  ("parse_pawn_pattern", 0, "!unc_isspace(ctx.peek())")   -- KNOWN DEFECT: holds for 0, see C06_pawn_pattern_witness
+]
+
+def tokLoopOk (l : String × Nat × String × String × String × List String) : Bool :=
+  let cls := l.2.2.2.2.1
+  cls == "guarded" || cls == "counter" ||
+  (cls == "peek" && l.2.2.2.2.2.all (fun a => atomAtZero a == some false)) ||
+  tokLoopExceptions.contains (l.1, l.2.1, l.2.2.2.1)
+
+/-- every loop of the tokenizer in the current source is guarded by `more()`, a counter, a `peek` test that is false at
+    the end of the data (`C06_scan_terminates`), or one of the listed exceptions -/
+theorem C06_tokenizer_loops_guarded : Gen.tokLoops.all tokLoopOk = true := by decide +kernel
+
+/-- the Pawn pattern scanner tests `!unc_isspace(ctx.peek())`, true for 0: at the end of the data it never stops -/
+theorem C06_pawn_pattern_witness :
+    atomAtZero "not:unc_isspace" = some true ∧
+    ∀ f, scanWhile (fun ch => !isSpaceC ch) f { data := [35, 100], idx := 2 } = none :=
+  ⟨by decide, fun f => C06_scan_diverges _ (by decide) _ (by decide) f⟩
+
+example : (scanWhile isDecC 4 { data := [49, 50, 59], idx := 0 }).map (·.idx) = some 2 := by decide
+example : Gen.tokLoops.length > 50 := by decide +kernel
 
 end Unc
